@@ -615,6 +615,15 @@ func (st *State) checkBad(bad *sym.Term, kind, label string) {
 	if bad.IsTrue() {
 		panic(pathEnd{kind})
 	}
+	if r == sym.Sat {
+		// continue only if the good case is possible at all
+		if st.journalOn > 0 {
+			panic(mergeAbort{"violation inside merge side"})
+		}
+		if !st.feasible(st.TS.Not(bad)) {
+			panic(pathEnd{kind})
+		}
+	}
 	if st.journalOn > 0 {
 		// inside a merge side: local knowledge now, implication after the merge
 		imp := st.TS.Not(bad)
